@@ -67,8 +67,8 @@ def gate(R):
     rc = calls_to(R, g, S + '._regular')
     need(len(rc) == 1, 'run._regular: expected one self._regular call')
     n, c = rc[0]
-    lits = {(t, p) for (t, p, _) in guards_of(g, n)}
-    R.ob('C15.gate', 'housekeeping generator only when ready', match_exact(guard_atom_sets(g, n), [{('self._ready', True)}]),
+    lits = {(t, p) for (t, p, _) in guards_of(g, n, within=c)}
+    R.ob('C15.gate', 'housekeeping generator only when ready', match_exact(guard_atom_sets(g, n, within=c), [{('self._ready', True)}]),
          'self._regular(...) is created under %s' % sorted(lits), func=q, node=c)
     # all uses of the housekeeping generator in run go through the closure
     direct = [c_.func.qual for (c_, call, t) in R.types.callers.get(S + '._regular', [])]
@@ -94,7 +94,7 @@ def gate(R):
              func=q2, node=tw[0][1])
     q3 = S + '._on_ready'
     f3 = R.func(q3)
-    vals = {U(s.targets[0]): s.value for s in own_nodes(f3.node) if isinstance(s, ast.Assign)}
+    vals = {U(t_): s.value for s in own_nodes(f3.node) if isinstance(s, ast.Assign) for t_ in s.targets}
     ok = fold(R, vals.get('self._last_pong'), None) == 0.0 and fold(R, vals.get('self._next_ping'), None) == 0.0 \
         and vals.get('self._start_time') is not None and U(vals['self._start_time']) == 'time.time()'
     R.ob('C15.gate', '_on_ready starts the clocks', ok, '_on_ready assigns %s' % {k: U(v) for k, v in vals.items()}, func=f3,
